@@ -9,6 +9,7 @@ package mcp
 import (
 	"context"
 	"encoding/json"
+	"errors"
 	"fmt"
 	"net/http"
 	"sync"
@@ -364,6 +365,10 @@ func (h *httpServerHandler) handlePostRequest(ctx context.Context, w http.Respon
 		}
 		if err := sseResponder.respond(ctx, w, r, jsonrpcResponse, session); err != nil {
 			h.logger.Errorf("Failed to send SSE success response: %v", err)
+			if errors.Is(err, ErrResponseSerialization) {
+				// The handler's result cannot be encoded: that is a handler failure, reported as such.
+				_ = sseResponder.respond(ctx, w, r, newJSONRPCErrorResponse(req.ID, ErrCodeInternal, err.Error(), nil), session)
+			}
 		}
 		return
 	}
@@ -398,6 +403,10 @@ func (h *httpServerHandler) handlePostRequest(ctx context.Context, w http.Respon
 	}
 	if err := responder.respond(respCtx, w, r, jsonrpcResponse, session); err != nil {
 		h.logger.Errorf("Failed to send success response: %v", err)
+		if errors.Is(err, ErrResponseSerialization) {
+			// The handler's result cannot be encoded: that is a handler failure, reported as such.
+			_ = responder.respond(respCtx, w, r, newJSONRPCErrorResponse(req.ID, ErrCodeInternal, err.Error(), nil), session)
+		}
 	}
 }
 
